@@ -149,36 +149,38 @@ Print Assumptions ownership_partition_through_failures_over_batches.
 Theorem recovery_rebuilds_the_partition :
   forall c version total jl img,
   Recovery.c_ro c = false -> Codec.has_token version = true -> total <= Recovery.U64MAX ->
-  forall its st0,
+  forall its st0 fuel,
+  (length its < fuel)%nat ->
   Recovery.rs_fs st0 = mkfs [] (total * FEOX_BLOCK_SIZE) 0 0 -> Recovery.rs_last_end st0 = FEOX_DATA_START_BLOCK -> Recovery.rs_idx st0 = [] ->
   total * FEOX_BLOCK_SIZE < U64 ->
   Forall (ScanQuiescentProofs.item_ok version) its -> ScanAcceptsProofs.distinct_keys (ScanQuiescentProofs.recs_of its) ->
   skipn (N.to_nat FEOX_DATA_START_BLOCK) img = ScanQuiescentProofs.ilayout version FEOX_DATA_START_BLOCK its ->
   total = FEOX_DATA_START_BLOCK + ScanQuiescentProofs.isum version its -> 0 < ScanQuiescentProofs.isum version its ->
   exists st' st'',
-    Recovery.scan (S (length its)) c version total img FEOX_DATA_START_BLOCK st0 jl = Recovery.Ok st' /\
+    Recovery.scan fuel c version total img FEOX_DATA_START_BLOCK st0 jl = Recovery.Ok st' /\
     (if Recovery.rs_last_end st' <? total then Recovery.fs_release st' (Recovery.rs_last_end st') (total - Recovery.rs_last_end st') else Recovery.Ok st') = Recovery.Ok st'' /\
     (forall r, In r (ScanQuiescentProofs.recs_of its) -> exists s, Recovery.idx_find (Codec.r_key r) (Recovery.rs_idx st'') = Some (ScanQuiescentProofs.entry_of version r s)) /\
     Recovery.rs_count st'' = Recovery.rs_count st0 + N.of_nat (length (ScanQuiescentProofs.recs_of its)) /\
-    Recovery.rs_retired st'' = Recovery.rs_retired st0 /\
+    Recovery.rs_retired st' = Recovery.rs_retired st0 /\ Recovery.rs_retired st'' = Recovery.rs_retired st0 /\
     (forall b, FEOX_DATA_START_BLOCK <= b < total ->
                (free (Recovery.rs_fs st'') b <-> ~ ScanQuiescentProofs.covered version FEOX_DATA_START_BLOCK its b)).
 Proof. exact ScanQuiescentProofs.quiescent_data_area_is_partitioned. Qed.
 Check recovery_rebuilds_the_partition :
   forall c version total jl img,
   Recovery.c_ro c = false -> Codec.has_token version = true -> total <= Recovery.U64MAX ->
-  forall its st0,
+  forall its st0 fuel,
+  (length its < fuel)%nat ->
   Recovery.rs_fs st0 = mkfs [] (total * FEOX_BLOCK_SIZE) 0 0 -> Recovery.rs_last_end st0 = FEOX_DATA_START_BLOCK -> Recovery.rs_idx st0 = [] ->
   total * FEOX_BLOCK_SIZE < U64 ->
   Forall (ScanQuiescentProofs.item_ok version) its -> ScanAcceptsProofs.distinct_keys (ScanQuiescentProofs.recs_of its) ->
   skipn (N.to_nat FEOX_DATA_START_BLOCK) img = ScanQuiescentProofs.ilayout version FEOX_DATA_START_BLOCK its ->
   total = FEOX_DATA_START_BLOCK + ScanQuiescentProofs.isum version its -> 0 < ScanQuiescentProofs.isum version its ->
   exists st' st'',
-    Recovery.scan (S (length its)) c version total img FEOX_DATA_START_BLOCK st0 jl = Recovery.Ok st' /\
+    Recovery.scan fuel c version total img FEOX_DATA_START_BLOCK st0 jl = Recovery.Ok st' /\
     (if Recovery.rs_last_end st' <? total then Recovery.fs_release st' (Recovery.rs_last_end st') (total - Recovery.rs_last_end st') else Recovery.Ok st') = Recovery.Ok st'' /\
     (forall r, In r (ScanQuiescentProofs.recs_of its) -> exists s, Recovery.idx_find (Codec.r_key r) (Recovery.rs_idx st'') = Some (ScanQuiescentProofs.entry_of version r s)) /\
     Recovery.rs_count st'' = Recovery.rs_count st0 + N.of_nat (length (ScanQuiescentProofs.recs_of its)) /\
-    Recovery.rs_retired st'' = Recovery.rs_retired st0 /\
+    Recovery.rs_retired st' = Recovery.rs_retired st0 /\ Recovery.rs_retired st'' = Recovery.rs_retired st0 /\
     (forall b, FEOX_DATA_START_BLOCK <= b < total ->
                (free (Recovery.rs_fs st'') b <-> ~ ScanQuiescentProofs.covered version FEOX_DATA_START_BLOCK its b)).
 Print Assumptions recovery_rebuilds_the_partition.
